@@ -41,7 +41,7 @@ def cases(draw, tier="quick"):
     if draw(st.integers(0, 9)) == 0:
         c["recs"][0] = [draw(st.integers(0, 40)) for _ in range(draw(st.integers(17, 40)))]
     c["mode"] = [draw(st.sampled_from(["read-early", "read-late", "read-mixed", "consumer", "tofile-exact",
-                                       "tofile-below", "tofile-above"])) for _ in range(2)]
+                                       "tofile-below", "tofile-above", "chain"])) for _ in range(2)]
     c["ops"] = draw(st.lists(st.sampled_from(["flip-len", "flip-nonce", "flip-body", "flip-tag", "delete", "swap",
                                               "replay", "inject", "cross", "truncate"]), max_size=1))
     if draw(st.integers(0, 2)) == 0:
@@ -52,6 +52,9 @@ def cases(draw, tier="quick"):
     c["hold_go"] = draw(st.integers(0, 2)) == 0
     # pauses of 61 simulated seconds (longer than the negotiation timeout) at tape-chosen points
     c["idle"] = draw(st.sampled_from([0, 0, 0, 1, 2]))
+    # at the very end the sender of that direction sends two more records and closes at once (as `wormhole
+    # receive` does with its acknowledgement); the receiver asks for them only after it has seen the close
+    c["fin"] = draw(st.sampled_from([None, None, 0, 1]))
     n = draw(st.integers(0, 200))
     c["tape"] = draw(st.binary(min_size=n, max_size=n))
     return c
@@ -117,6 +120,18 @@ class Sink:
 
     def write(self, b):
         self.data += b
+
+
+class ChainSink:
+    """two files written one after the other: writeToFile(first, n1), and from its completion callback
+    writeToFile(second, n2)"""
+    def __init__(self):
+        self.first, self.second = Sink(), Sink()
+        self.results = [None, None]
+
+    @property
+    def data(self):
+        return self.first.data + self.second.data
 
 
 def payload(i, k, n):
@@ -508,6 +523,17 @@ def run_case(c):
                     res.violate("roundtrip", "direction %d: %d of %d records surfaced (%s vs %s)" % (
                         d, len(got[d]), len(sent[d]), common.short(got[d]), common.short(sent[d])),
                         input_class="records-missing")
+            elif mode == "chain":
+                cs = sinks[e]
+                n1, n2 = cons_d[e]["chain"]
+                want = b"".join(sent[d])
+                if n1 > 0 and n2 > 0 and len(want) == n1 + n2 and (
+                        bytes(cs.first.data) != want[:n1] or bytes(cs.second.data) != want[n1:] or
+                        cs.results[0] is None or cs.results[1] is None):
+                    res.violate("roundtrip", "direction %d: writeToFile(%d) then, from its callback, writeToFile(%d): files "
+                                "hold %d and %d bytes, results %r" % (d, n1, n2, len(cs.first.data), len(cs.second.data),
+                                                                       [x[0] if x else None for x in cs.results]),
+                                input_class="chained-tofile-mismatch")
             elif mode == "consumer":
                 if b"".join(sinks[e].data) != b"".join(sent[d]):
                     res.violate("roundtrip", "direction %d: consumer got %d bytes of %d" % (
@@ -521,12 +547,45 @@ def run_case(c):
                     res.violate("roundtrip", "direction %d: writeToFile(expected=%d) wrote %d bytes, sent %d, "
                                 "deferred %r" % (d, k, len(have), len(want), cons_d[e]["result"]),
                                 input_class="tofile-mismatch")
+    if not any_drop and not applied and c.get("fin") is not None and not res.violations and \
+            c["mode"][1 - c["fin"]].startswith("read") and all(ready):
+        d = c["fin"]
+        e = 1 - d
+        n0 = len(got[d])
+        tail = [b"tail-one", b"tail-two" * 900]
+        try:
+            for x in tail:
+                conns[d].send_record(x)
+            conns[d].close()
+            collect(d)
+            pipes[d].lose = 0                  # (harness pipe: let the queued frames through, the FIN follows them)
+            deliver(d, None)
+            pipes[d].lose = 1
+            for k_ in range(2):
+                conns[k_].connectionLost(failure.Failure(error.ConnectionDone()))
+            before_reads = len(reads[e])
+            for _ in range(3):
+                issue_read(e)
+        except Exception as ex:
+            res.violate("roundtrip", "sending two records and closing raised %r" % ex, input_class="fin-raises",
+                        exc=type(ex).__name__)
+        else:
+            late = [r["result"] for r in reads[e][before_reads:]]
+            # reads that were already waiting take the tail records first
+            if got[d][n0:] != tail[:len(got[d]) - n0] or len(got[d]) - n0 != len(tail):
+                res.violate("roundtrip", "direction %d: the sender sent two records and closed; the receiver, reading "
+                            "after the close, obtained %s of them (%s); late reads %r" % (
+                                d, len(got[d]) - n0, common.short(got[d][n0:]), [x[0] if x else None for x in late]),
+                            input_class="records-before-close-lost")
+            elif any(x is None for x in late):
+                # (a read issued after the loss with nothing left to return stays pending: measured, see ASSUMPTIONS)
+                res.notes["read_issued_after_close_with_empty_queue_never_fires"] += 1
     reached = any(first_affected[d] is not None for d in range(2))
     nrec = max(len(sent[0]), len(sent[1]))
     res.nontrivial = (nrec >= 2 and split[0] >= 1) or reached
     res.features = dict(ops="+".join(applied) or "-", m0=c["mode"][0], m1=c["mode"][1], nrec=common.bucket(nrec, [0, 1, 2, 6, 17]),
                         split=common.bucket(split[0], [0, 1, 5]), dropped=bool(any_drop), late_go=bool(held_go),
-                        idles=idles[0])
+                        idles=idles[0], fin=str(c.get("fin")))
     res.trace = "%r|%r|%d" % (c["recs"], applied, split[0])
     res.steps = step
     res.sample = dict(recs=c["recs"], modes=c["mode"], ops_applied=applied, first_affected=first_affected,
@@ -553,6 +612,23 @@ def _setup_modes(c, conns, pending, total, sinks, cons_d, issue_read, FC, only=(
             if dd is not None:
                 dd.addCallbacks(lambda r, e=e: cons_d[e].__setitem__("result", ("ok", r)),
                                 lambda f, e=e: cons_d[e].__setitem__("result", ("err", f.value)))
+        elif mode == "chain":
+            sizes = list(c["recs"][d_in])
+            n1 = sum(sizes[:max(1, len(sizes) // 2)])
+            n2 = sum(sizes) - n1
+            cs = ChainSink()
+            sinks[e] = cs
+            cons_d[e] = dict(result=None, expected=n1 + n2, chain=(n1, n2))
+
+            def second(r, e=e, cs=cs, n2=n2):
+                cs.results[0] = ("ok", r)
+                d2 = conns[e].writeToFile(cs.second, n2)       # issued synchronously from the first one's callback
+                d2.addCallbacks(lambda r2: (cs.results.__setitem__(1, ("ok", r2)), cons_d[e].__setitem__("result", ("ok", r2))),
+                                lambda f2: (cs.results.__setitem__(1, ("err", f2.value)), cons_d[e].__setitem__("result", ("err", f2.value))))
+                return r
+            d1 = conns[e].writeToFile(cs.first, n1)
+            d1.addCallbacks(second, lambda f, e=e, cs=cs: (cs.results.__setitem__(0, ("err", f.value)),
+                                                            cons_d[e].__setitem__("result", ("err", f.value))))
 
 
 def check_prefix(res, c, sent, got, sinks, first_affected, errs):
